@@ -26,6 +26,20 @@ class Box(Pt):
         return 'Box(%s)' % ', '.join('%s=%r' % kv for kv in sorted(self.__dict__.items()))
 
 
+class Shy(Pt):
+    """A value class that declares itself not worth copying (`copy.copy` / `copy.deepcopy` hand back the very object),
+    as classes holding caches or interned state do.  The serializer round trip does not consult these hooks."""
+
+    def __copy__(self):
+        return self
+
+    def __deepcopy__(self, memo):
+        return self
+
+    def __repr__(self):
+        return 'Shy(%s)' % ', '.join('%s=%r' % kv for kv in sorted(self.__dict__.items()))
+
+
 class ErrA(Exception):
     """Stateless module-level exception classes: compared by type only (C01)."""
 
